@@ -6,6 +6,9 @@ from .c14 import values_equal
 from oracle.langs import LANGS
 
 
+NON_ASCII = {'fr': ['zéro'], 'es': ['dieciséis'], 'pt': ['três'], 'it': ['ventitré'], 'de': ['fünf']}
+
+
 def recasings(w, nat_lower_upper):
     """case variants of w whose case mapping is reversible: lower(upper(v)) == lower(v) == lower(w)"""
     low = strings.rust_lowercase(w)
@@ -24,6 +27,8 @@ def worker(ck: Check, job):
     k = 3 if quick else 4
     reps, classes = stream_alphabet(ck, code, quick)
     # the alphabet is the lowercase words; every word token additionally chooses one of its recasings
+    # a number word with a non-ASCII letter must be present (case mapping outside ASCII is where lowercasing can go wrong)
+    reps = list(reps) + [w for w in NON_ASCII.get(code, []) if w not in reps]
     reps = [strings.rust_lowercase(r) for r in reps]
     reps = list(dict.fromkeys(reps))
     st_low = Stream(code, reps, k, prefix='c')
@@ -54,7 +59,8 @@ def worker(ck: Check, job):
     ex2.shape_ignore = {'Occurence'}
     r_var = run_scanner(ck, ex2, L, slots, thr)
     ck.absorb(ex2)
-    A, Bv = H.merged_result(r_low), H.merged_result(r_var)
+    cov = []
+    A, Bv = merged(cov, r_low), merged(cov, r_var)
     bad = [('occurrences differ between the lowercase and the recased stream', z3.Not(seq_occ_equal(A, Bv)))]
     for e in (ex1, ex2):
         bad += [('panic: %s %s at %s' % (p.kind, p.msg, p.where), c) for p, c in zip(e.panics, conds_of(e.panics))]
@@ -62,9 +68,9 @@ def worker(ck: Check, job):
     lowslots = [[(st_low.w[x] == idx, r) for idx, r in enumerate(reps)] for x in range(k)]
     varslots = [[(c, t.text) for c, t in slots[2 * x]] for x in range(k)]
     ex3 = make_executor(ck, assm)
-    v_low = H.merged_result(run_validator(ck, ex3, L, lowslots))
+    v_low = merged(cov, run_validator(ck, ex3, L, lowslots))
     ex4 = make_executor(ck, assm)
-    v_var = H.merged_result(run_validator(ck, ex4, L, varslots))
+    v_var = merged(cov, run_validator(ck, ex4, L, varslots))
     ck.absorb(ex3)
     ck.absorb(ex4)
     bad.append(('validator result differs between the lowercase and the recased phrase', z3.Not(values_equal(v_low, v_var))))
@@ -95,7 +101,7 @@ def worker(ck: Check, job):
                 'what': '%s thr=%s: %r gives %r but %r gives %r' % (code, thr, ''.join(t[0] for t in tl),
                                                                   [(o['start'], o['end'], o['text']) for o in oa],
                                                                   ''.join(t[0] for t in tv), [(o['start'], o['end'], o['text']) for o in ob])}
-    ck.prove_none(name, assm, bad, on_cex, lambda m, c: None)
+    ck.prove_none(name, assm, guard(cov, bad), on_cex, lambda m, c: None)
     ck.cover(name + ':recased-number', assm + [z3.UGE(B64(A.len), 1), z3.Or(*[c != 0 for c in casev])],
              lambda m: {'lang': code, 'recased': [t[0] for t in concrete_tokens_var(m)]})
     ck.bounds['stream_words'] = k
